@@ -2932,10 +2932,27 @@ def replay(ctx, path):
         sop = r["op"].split("\t")
         sop[0] = "s" + sop[0]
         print("spec      :", run_batch(MDRV, ["\t".join(sop)])[0])
-    elif "lines" in r:
-        s = Session()
+    elif "lines" in r and isinstance(r["lines"], list):
+        env = {}
+        if r.get("env") == "VERIF_STABLE_SORT=1":
+            env["VERIF_STABLE_SORT"] = "1"
+        s = Session(env=env)
         for l in r["lines"]:
-            s.send(l)
+            l = str(l)
+            m = re.match(r"^<sleep ([0-9.]+)s?>$", l)
+            if l.startswith("<wait for bestmove>") or l == "<bestmove>":
+                g, st = wait_bestmove(s, 60.0)
+                print("   ...", (g[-1] if g else st))
+            elif m:
+                time.sleep(float(m.group(1)))
+            elif l.startswith("<while that search runs> "):
+                s.send(l[len("<while that search runs> "):])
+            elif l.startswith("hex:"):
+                s.send(bytes.fromhex(l[4:]))
+            elif l.startswith("<") or l.startswith("interrupt mode="):
+                print(f"   (schedule step `{l}` needs the sync hooks: re-run `python3 tools/check.py {ctx.prop} --tier quick` to force it; skipped in this plain replay)")
+            else:
+                s.send(l)
         time.sleep(1.0)
         s.send("isready")
         got, st = s.read_until(lambda l: l == "readyok", 5)
